@@ -12,17 +12,44 @@ against reference decompressors).
 result no longer depends on the fuel and is not "still running".
 -/
 import Sqfs.Proofs.XfrmIoErr
+import Sqfs.Proofs.XfrmProbe
 namespace Sqfs.C15
 open Sqfs.Xfrm Sqfs.Xfrm.Spec
 
 variable {σ : Type} {C : Codec σ} {Dec : Bytes → Option Bytes}
+
+/-! ### data of the instantiating examples
+One toy codec setting (takes in at most 2 bytes per call while at most 2 wait in its queue, hands out 1 byte per call), two
+members, an uneven chunk script for the wrapped input, readers that take 1–4 bytes per round, a history with two closed
+segments, empty appends and an open segment at the end; a tail cut off inside a member; a dead tail.  Every theorem below is
+followed by an `example` that applies it to these with all hypotheses discharged. -/
+
+def exP : Toy.Params := ⟨1, 0, 2⟩
+def exA : Bytes := [65, 66, 67]
+def exB : Bytes := [68, 69]
+theorem exMembers : Members Toy.decode [Toy.encode exA, Toy.encode exB] [exA, exB] :=
+  .cons (by decide) (.cons (by decide) .nil)
+def exScript : List Nat := [1, 0, 2, 1, 3]
+def exReads : List (Nat × Nat) := [(4, 3), (2, 1), (4, 3), (1, 1), (4, 4), (4, 4), (3, 2)]
+theorem exReads_want : ∀ op ∈ exReads, 0 < op.1 := by decide
+/-- a member cut after 3 of its 5 bytes -/
+def exCut : Bytes := (Toy.encode [70, 71]).take 3
+def exCutRest : Bytes := (Toy.encode [70, 71]).drop 3
+theorem exCut_ne : exCut ≠ [] := by decide
+theorem exCutRest_ne : exCutRest ≠ [] := by decide
+theorem exCut_valid : Toy.decode (exCut ++ exCutRest) = some [70, 71] := by decide
+def exOps : List OOp :=
+  [.append [1, 2, 3], .append [4, 5, 6, 7, 8, 9], .flush, .flush, .append [], .append [10], .flush, .append [11, 12]]
+def exChunks : List Bytes := [[1, 2, 3], [], [4, 5, 6, 7, 8, 9]]
 
 /--
 **ostream_transparent.**  After any history of `append` / `flush` calls on a fresh `ostream_xfrm`, in any
 chunking (an `append(NULL, n)` is `OOp.append (appendBytes none n)`, i.e. `n` zero bytes), no call fails or
 hangs, and what has reached the wrapped stream is a sequence of members `ms`, one per non-empty flushed
 segment, each decoding to exactly the bytes appended between the two flushes, followed by the part already
-written for the still open segment — nothing at all if the history ends with a flush.
+written for the still open segment — nothing at all if the history ends with a flush.  (For a history that does
+*not* end with a flush the statement does not constrain `part` itself — it only says that the closed members come
+first; the flushed case, which is what the tools use, is fully specified: `ostream_transparent_single`.)
 -/
 theorem ostream_transparent (hC : EncContract C Dec) {bufsz : Nat} (hb : 0 < bufsz) (ops : List OOp) :
     ∃ fuel st, (∀ f, fuel ≤ f → oRun C bufsz f (oInit C) ops = some (.ok st)) ∧
@@ -36,6 +63,9 @@ theorem ostream_transparent (hC : EncContract C Dec) {bufsz : Nat} (hb : 0 < buf
   rw [h] at hcur
   have hx : x = [] := (List.append_eq_nil_iff.1 hcur.symm).1
   exact ⟨hxy hx, (List.append_eq_nil_iff.1 hcur.symm).2⟩
+
+example := ostream_transparent (Toy.encContract exP) (bufsz := 4) (by decide) exOps
+example : (opsSegs [] [] exOps).1 = [[1, 2, 3, 4, 5, 6, 7, 8, 9], [10]] ∧ (opsSegs [] [] exOps).2 = [11, 12] := by decide
 
 /--
 The plain reading of the property: the bytes written by `append*; flush` decode to the input, whatever the
@@ -70,6 +100,8 @@ theorem ostream_transparent_single (hC : EncContract C Dec) {bufsz : Nat} (hb : 
     cases hms
     simp [hsink, hp]
 
+example := ostream_transparent_single (Toy.encContract exP) (bufsz := 4) (by decide) exChunks
+
 /--
 **ostream_flush_terminates.**  After any history, `xfrm_flush` (whose `flush_inbuf(finish)` loop has no bound
 in the C code) comes back, without error, and leaves nothing buffered.
@@ -82,6 +114,8 @@ theorem ostream_flush_terminates (hC : EncContract C Dec) {bufsz : Nat} (hb : 0 
   refine ⟨max f1 f2, st, st', fun f hf => hrun f (by omega), fun f hf => hfl f (by omega), ?_⟩
   obtain ⟨_, x, _, _, _, _, hcur, _, _⟩ := hI'
   exact (List.append_eq_nil_iff.1 hcur.symm).2
+
+example := ostream_flush_terminates (Toy.encContract exP) (bufsz := 4) (by decide) exOps
 
 /--
 **istream_transparent** (stream-level contract).  Let the wrapped stream hold any sequence of members `ms` with contents `xs`
@@ -106,6 +140,9 @@ theorem istream_transparent_stream (S : StreamDecContract C Dec) {bufsz : Nat} (
   · exact absurd rfl hK
   · exact ⟨f0, st, acc, eof, hrun, hp.zero, fun h => (he h).2, fun h => by simpa using hl h⟩
 
+example := istream_transparent_stream (streamOfDec (Toy.decContract exP)) (bufsz := 4) (by decide) exMembers exScript exReads
+  exReads_want
+
 /-- **istream_transparent** for every decoder meeting the per-member contract -/
 theorem istream_transparent (hD : DecContract C Dec) {bufsz : Nat} (hb : 0 < bufsz) {ms xs : List Bytes}
     (hms : Members Dec ms xs) (script : List Nat) (ops : List (Nat × Nat)) (hw : ∀ op ∈ ops, 0 < op.1) :
@@ -113,6 +150,8 @@ theorem istream_transparent (hD : DecContract C Dec) {bufsz : Nat} (hb : 0 < buf
       IsPre acc xs.flatten ∧ (eof = true → acc = xs.flatten) ∧
       ((∀ op ∈ ops, 0 < op.2) → eof = true ∨ ops.length ≤ acc.length) :=
   istream_transparent_stream (streamOfDec hD) hb hms script ops hw
+
+example := istream_transparent (Toy.decContract exP) (bufsz := 4) (by decide) exMembers exScript exReads exReads_want
 
 /--
 **truncated_is_error** (stream-level contract).  Let the wrapped stream hold complete members `ms` followed by a non-empty
@@ -150,6 +189,9 @@ theorem truncated_is_error_stream (S : StreamDecContract C Dec) {bufsz : Nat} (h
         simp only [List.length_nil, Nat.zero_add] at h
         omega
 
+example := truncated_is_error_stream (streamOfDec (Toy.decContract exP)) (bufsz := 4) (by decide) exMembers exCut_ne exCutRest_ne
+  exCut_valid exScript exReads exReads_want
+
 /-- **truncated_is_error** for every decoder meeting the per-member contract -/
 theorem truncated_is_error (hD : DecContract C Dec) {bufsz : Nat} (hb : 0 < bufsz) {ms xs : List Bytes}
     (hms : Members Dec ms xs) {t t' xT : Bytes} (ht : t ≠ []) (ht' : t' ≠ []) (hcut : Dec (t ++ t') = some xT)
@@ -159,6 +201,9 @@ theorem truncated_is_error (hD : DecContract C Dec) {bufsz : Nat} (hb : 0 < bufs
        ∃ st acc, r = .ok (st, acc, false) ∧ IsPre acc (xs.flatten ++ xT)) ∧
       ((∀ op ∈ ops, 0 < op.2) → (xs.flatten ++ xT).length < ops.length → r = .error errCompressor) :=
   truncated_is_error_stream (streamOfDec hD) hb hms ht ht' hcut script ops hw
+
+example := truncated_is_error (Toy.decContract exP) (bufsz := 4) (by decide) exMembers exCut_ne exCutRest_ne exCut_valid
+  exScript exReads exReads_want
 
 /--
 **corrupt_is_error.**  Let the wrapped stream hold complete members `ms` followed by **dead** bytes `c`: bytes that are
@@ -252,6 +297,13 @@ theorem process_data_meets_contract {τ : Type} {L : Lib τ} {b : Backend} :
   · intro K zs rest rem j n room fl hG hn hfull
     exact zstdProcess_dec_total hZ (ZDoom.none hZ) (fun h => absurd h hG.1) hG.2 n room fl hn hfull
 
+/-- each of the five parts applied to the toy library's contracts -/
+example := (process_data_meets_contract (Dec := Toy.decode) (L := Toy.encLib exP .gzip) (b := .gzip)).1 (Toy.encLibContract exP .gzip)
+example := (process_data_meets_contract (Dec := Toy.decode) (L := Toy.decLib exP .bzip2) (b := .bzip2)).2.1 (Toy.decLibContract exP .bzip2)
+example := (process_data_meets_contract (Dec := Toy.decode) (L := Toy.decLib exP .xz) (b := .xz)).2.2.1 (Toy.encZLibContract exP)
+example := (process_data_meets_contract (Dec := Toy.decode) (L := Toy.decLib exP .xz) (b := .xz)).2.2.2.1 (Toy.decZLibContract exP)
+example := (process_data_meets_contract (Dec := Toy.decode) (L := Toy.decLib exP .xz) (b := .xz)).2.2.2.2 (Toy.decContract exP)
+
 /-- hence: reading a `.tar.zst` through `istream_xfrm` is transparent for every library meeting `ZSTD_decompressStream`'s
 convention — any number of frames, any chunking, any buffer size -/
 theorem zstd_istream_transparent {ζ : Type} {Z : ZLib ζ} (hZ : ZDecContract Z Dec) {bufsz : Nat}
@@ -262,6 +314,8 @@ theorem zstd_istream_transparent {ζ : Type} {Z : ZLib ζ} (hZ : ZDecContract Z 
       IsPre acc xs.flatten ∧ (eof = true → acc = xs.flatten) ∧ ((∀ op ∈ ops, 0 < op.2) → eof = true ∨ ops.length ≤ acc.length) :=
   istream_transparent_stream (zstdDecStream hZ) hb hms script ops hw
 
+example := zstd_istream_transparent (Toy.decZLibContract exP) (bufsz := 3) (by decide) exMembers exScript exReads exReads_want
+
 /-- … and a `.tar.zst` cut off inside a frame is an error, never a regular end -/
 theorem zstd_truncated_is_error {ζ : Type} {Z : ZLib ζ} (hZ : ZDecContract Z Dec) {bufsz : Nat}
     (hb : 0 < bufsz) {ms xs : List Bytes} (hms : Members Dec ms xs) {t t' xT : Bytes} (ht : t ≠ []) (ht' : t' ≠ [])
@@ -270,6 +324,9 @@ theorem zstd_truncated_is_error {ζ : Type} {Z : ZLib ζ} (hZ : ZDecContract Z D
       (r = .error errCompressor ∨ ∃ st acc, r = .ok (st, acc, false) ∧ IsPre acc (xs.flatten ++ xT)) ∧
       ((∀ op ∈ ops, 0 < op.2) → (xs.flatten ++ xT).length < ops.length → r = .error errCompressor) :=
   truncated_is_error_stream (zstdDecStream hZ) hb hms ht ht' hcut script ops hw
+
+example := zstd_truncated_is_error (Toy.decZLibContract exP) (bufsz := 3) (by decide) exMembers exCut_ne exCutRest_ne exCut_valid
+  exScript exReads exReads_want
 
 /-- hence: reading a `.tar.gz|xz|bz2` through `istream_xfrm` is transparent, and a cut-off input is an error, for every
 library meeting the decompression convention -/
@@ -288,6 +345,11 @@ theorem backend_truncated_is_error {τ : Type} {L : Lib τ} {b : Backend} (hL : 
       (r = .error errCompressor ∨ ∃ st acc, r = .ok (st, acc, false) ∧ IsPre acc (xs.flatten ++ xT)) ∧
       ((∀ op ∈ ops, 0 < op.2) → (xs.flatten ++ xT).length < ops.length → r = .error errCompressor) :=
   truncated_is_error (wrapDecContract hL) hb hms ht ht' hcut script ops hw
+
+example := backend_istream_transparent (Toy.decLibContract exP .gzip) (bufsz := 3) (by decide) exMembers exScript exReads exReads_want
+
+example := backend_truncated_is_error (Toy.decLibContract exP .xz) (bufsz := 3) (by decide) exMembers exCut_ne exCutRest_ne
+  exCut_valid exScript exReads exReads_want
 
 /--
 **backend_corrupt_is_error** (gzip.c, xz.c, bzip2.c).  Under the library's error-return convention on input that has gone
@@ -350,6 +412,15 @@ theorem toy_dead_example (t : Bytes) : Dead Toy.decode (2 :: t) := by
       | nil => simp [Toy.decode] at hm
       | cons b r => rw [Toy.decode_cons_cons] at hm; simp at hm
 
+/-- the corrupted-input theorems applied: `Members`, `Dead` and the error conventions jointly, behind the codec, the
+zlib/liblzma/libbz2-style and the libzstd-style interface -/
+example := corrupt_is_error (streamOfDecErr (Toy.decContract exP) (Toy.decErrContract exP)) (bufsz := 4) (by decide) exMembers
+  (toy_dead_example [9, 9]) exScript exReads exReads_want
+example := backend_corrupt_is_error (Toy.decLibContract exP .bzip2) (Toy.decLibErrContract exP .bzip2) (bufsz := 3) (by decide)
+  exMembers (toy_dead_example [9, 9]) exScript exReads exReads_want
+example := zstd_corrupt_is_error (Toy.decZLibContract exP) (Toy.decZLibErrContract exP) (bufsz := 3) (by decide) exMembers
+  (toy_dead_example [9, 9]) exScript exReads exReads_want
+
 /-- hence: `sqfs2tar -c gzip|xz|bzip2`'s output stream is transparent for every library meeting the convention -/
 theorem backend_ostream_transparent {τ : Type} {L : Lib τ} {b : Backend} (hL : LibEncContract L b Dec) {bufsz : Nat}
     (hb : 0 < bufsz) (chunks : List Bytes) :
@@ -357,6 +428,8 @@ theorem backend_ostream_transparent {τ : Type} {L : Lib τ} {b : Backend} (hL :
         (chunks.map OOp.append ++ [OOp.flush]) = some (.ok st)) ∧
       st.inbuf = [] ∧ (chunks.flatten ≠ [] → Dec st.sink = some chunks.flatten) ∧ (chunks.flatten = [] → st.sink = []) :=
   ostream_transparent_single (wrapEncContract hL) hb chunks
+
+example := backend_ostream_transparent (Toy.encLibContract exP .gzip) (bufsz := 4) (by decide) exChunks
 
 /-! ### errors of the wrapped streams -/
 
@@ -369,16 +442,52 @@ theorem ostream_failure_model_agrees (bufsz fuel : Nat) (ops : List OOp) (s : OS
     (oRunE C bufsz fuel OEnv.good s ops).map projO = oRun C bufsz fuel s.st ops :=
   oRunE_good bufsz fuel ops s
 
+example := ostream_failure_model_agrees (C := Toy.encoder exP) 4 1000 exOps ⟨oInit (Toy.encoder exP), 0⟩
+
 /-- **A write error of the wrapped stream is never swallowed**: if call number `k` of `wrapped->append` fails (`e ≠ 0`), a history
 of `append`/`flush` operations that comes back with 0 has not reached that call (for every codec, no contract needed). -/
 theorem ostream_write_error_reported (bufsz fuel : Nat) (E : OEnv) {k : Nat} {e : Int} (hE : E.appendFail = some (k, e)) (he : e ≠ 0)
     (ops : List OOp) (s s' : OStateE σ) (h : oRunE C bufsz fuel E s ops = some (.ok s')) (hk : s.appends ≤ k) : s'.appends ≤ k :=
   oRunE_ok_no_append_failure bufsz fuel E hE he ops s s' h hk
 
+/-- instance with the hypotheses met: the history `exOps` makes 22 `wrapped->append` calls (numbered 0…21); with a failure
+scheduled for call number 22 (tight) or 50 the run comes back with 0, and the theorem bounds the calls made -/
+example : ∃ s', oRunE (Toy.encoder exP) 4 1000 { appendFail := some (22, -5) } ⟨oInit (Toy.encoder exP), 0⟩ exOps = some (.ok s') ∧
+    s'.appends ≤ 22 := by
+  have hk : (match oRunE (Toy.encoder exP) 4 1000 { appendFail := some (22, -5) } ⟨oInit (Toy.encoder exP), 0⟩ exOps with
+      | some (.ok s') => decide (s'.appends = 22) | _ => false) = true := by decide
+  cases h : oRunE (Toy.encoder exP) 4 1000 { appendFail := some (22, -5) } ⟨oInit (Toy.encoder exP), 0⟩ exOps with
+  | none => rw [h] at hk; cases hk
+  | some r =>
+    cases r with
+    | error e => rw [h] at hk; cases hk
+    | ok s' => exact ⟨s', rfl, ostream_write_error_reported 4 1000 _ (k := 22) (e := -5) rfl (by decide) exOps _ s' h (by decide)⟩
+example : ∀ s', oRunE (Toy.encoder exP) 4 1000 { appendFail := some (50, -5) } ⟨oInit (Toy.encoder exP), 0⟩ exOps = some (.ok s') →
+    s'.appends ≤ 50 :=
+  fun s' h => ostream_write_error_reported 4 1000 _ (k := 50) (e := -5) rfl (by decide) exOps _ s' h (by decide)
+/-- … and the bound is sharp: scheduled for call number 21, the failure is hit and returned -/
+example : (match oRunE (Toy.encoder exP) 4 1000 { appendFail := some (21, -5) } ⟨oInit (Toy.encoder exP), 0⟩ exOps with
+    | some (.error e) => some e.1 | _ => none) = some (-5) := by decide
+
 /-- … and neither is a failing `wrapped->flush` -/
 theorem ostream_flush_error_reported (bufsz fuel : Nat) (E : OEnv) {k : Nat} {e : Int} (hE : E.flushFail = some (k, e)) (he : e ≠ 0)
     (ops : List OOp) (s s' : OStateE σ) (h : oRunE C bufsz fuel E s ops = some (.ok s')) (hk : s.st.flushed ≤ k) : s'.st.flushed ≤ k :=
   oRunE_ok_no_flush_failure bufsz fuel E hE he ops s s' h hk
+
+/-- instance: `exOps` makes 3 `wrapped->flush` calls (0…2); a failure scheduled for call number 3 is not reached, one for
+call number 2 is returned -/
+example : ∃ s', oRunE (Toy.encoder exP) 4 1000 { flushFail := some (3, -5) } ⟨oInit (Toy.encoder exP), 0⟩ exOps = some (.ok s') ∧
+    s'.st.flushed ≤ 3 := by
+  have hk : (match oRunE (Toy.encoder exP) 4 1000 { flushFail := some (3, -5) } ⟨oInit (Toy.encoder exP), 0⟩ exOps with
+      | some (.ok s') => decide (s'.st.flushed = 3) | _ => false) = true := by decide
+  cases h : oRunE (Toy.encoder exP) 4 1000 { flushFail := some (3, -5) } ⟨oInit (Toy.encoder exP), 0⟩ exOps with
+  | none => rw [h] at hk; cases hk
+  | some r =>
+    cases r with
+    | error e => rw [h] at hk; cases hk
+    | ok s' => exact ⟨s', rfl, ostream_flush_error_reported 4 1000 _ (k := 3) (e := -5) rfl (by decide) exOps _ s' h (by decide)⟩
+example : (match oRunE (Toy.encoder exP) 4 1000 { flushFail := some (2, -5) } ⟨oInit (Toy.encoder exP), 0⟩ exOps with
+    | some (.error e) => some e.1 | _ => none) = some (-5) := by decide
 
 /-- the same for `istream_xfrm`: without a failing `get_buffered_data` the tied function is `iRead` … -/
 theorem istream_failure_model_agrees (bufsz fuel : Nat) (ops : List (Nat × Nat)) (st : IStateE σ) (acc : Bytes)
@@ -386,12 +495,31 @@ theorem istream_failure_model_agrees (bufsz fuel : Nat) (ops : List (Nat × Nat)
     (iReadE C bufsz fuel st ops acc).map projRead = iRead C bufsz fuel (projI st) ops acc :=
   iReadE_good bufsz fuel ops st acc hf
 
+/-- the reader state of the examples: the two members behind the chunk script, `get_buffered_data` failing as given by `f` -/
+def exIst (f : Option (Nat × Int)) : IStateE Toy.Dec :=
+  ⟨Toy.decFresh, [], 0, ⟨⟨Toy.encode exA ++ Toy.encode exB, exScript⟩, 0, f⟩⟩
+example := istream_failure_model_agrees (C := Toy.decoder exP) 4 1000 exReads (exIst none) [] rfl
+
 /-- … and a **read error of the wrapped stream is never taken for data or for the end**: a reader's run that ends without an
 error has not made the failing call -/
 theorem istream_read_error_reported (bufsz fuel : Nat) {k : Nat} {e : Int} (he : e < 0) (ops : List (Nat × Nat)) (st : IStateE σ)
     (acc : Bytes) (r : IStateE σ × Bytes × Bool) (hf : st.inner.fail = some (k, e))
     (h : iReadE C bufsz fuel st ops acc = some (.ok r)) (hk : st.inner.calls ≤ k) : r.1.inner.calls ≤ k :=
   iReadE_ok_no_failure bufsz fuel he ops st acc r hf h hk
+
+/-- instance: the reads `exReads` make 10 calls of the wrapped `get_buffered_data` (0…9) and see the end; a failure scheduled
+for call number 10 is not reached, one for call number 9 is returned -/
+example : ∃ r, iReadE (Toy.decoder exP) 4 1000 (exIst (some (10, -3))) exReads [] = some (.ok r) ∧ r.1.inner.calls ≤ 10 := by
+  have hk : (match iReadE (Toy.decoder exP) 4 1000 (exIst (some (10, -3))) exReads [] with
+      | some (.ok r) => decide (r.1.inner.calls = 10) | _ => false) = true := by decide
+  cases h : iReadE (Toy.decoder exP) 4 1000 (exIst (some (10, -3))) exReads [] with
+  | none => rw [h] at hk; cases hk
+  | some r =>
+    cases r with
+    | error e => rw [h] at hk; cases hk
+    | ok r => exact ⟨r, rfl, istream_read_error_reported 4 1000 (k := 10) (e := -3) (by decide) exReads _ [] r rfl h (by decide)⟩
+example : (match iReadE (Toy.decoder exP) 4 1000 (exIst (some (9, -3))) exReads [] with
+    | some (.error e) => some e | _ => none) = some (-3) := by decide
 
 /-- a concrete failing write: the second `wrapped->append` of the flush returns -5; `xfrm_flush` returns -5, one byte stored -/
 example : (match oRunE (Toy.encoder ⟨0, 0, 0⟩) 4 1000 { appendFail := some (1, -5) } ⟨oInit (Toy.encoder ⟨0, 0, 0⟩), 0⟩
@@ -406,38 +534,114 @@ example : (match iReadE (Toy.decoder ⟨0, 0, 0⟩) 4 1000 ⟨Toy.decFresh, [], 
     | _ => none) = some (-3) := by decide
 
 /--
+**tarProbe_iff.**  The model of `tar_probe` answers "tar" exactly for the inputs the informal description names: `ustar` at
+offset 257 of the first record, or — when the first 512-byte record is there and all zero — at offset 257 of the second.
+(The two cases cannot overlap: an all-zero first record has no `ustar` in it, so the order of the two tests in the C code
+does not matter.)
+-/
+theorem tarProbe_iff (d : Bytes) : tarProbe d = true ↔ TarLike d := by
+  unfold TarLike
+  change (decide (257 + 5 ≤ (if (decide (512 ≤ d.length) && (d.take 512).all (· == 0)) = true then d.drop 512 else d).length) &&
+    (((if (decide (512 ≤ d.length) && (d.take 512).all (· == 0)) = true then d.drop 512 else d).drop 257).take 5 ==
+      [0x75, 0x73, 0x74, 0x61, 0x72])) = true ↔ _
+  by_cases hz : ZeroRecord d
+  · have hc : (decide (512 ≤ d.length) && (d.take 512).all (· == 0)) = true := by
+      simp only [Bool.and_eq_true, decide_eq_true_eq, List.all_eq_true, beq_iff_eq]
+      exact hz
+    simp only [hc, if_true]
+    rw [show ([0x75, 0x73, 0x74, 0x61, 0x72] : Bytes) = ustarMagic from rfl, ustarAt_iff]
+    constructor
+    · exact fun h => Or.inr ⟨hz, h⟩
+    · rintro (h | h)
+      · exact absurd h (zeroRecord_not_ustarAt d hz)
+      · exact h.2
+  · have hc : (decide (512 ≤ d.length) && (d.take 512).all (· == 0)) = false := by
+      rw [Bool.eq_false_iff]
+      intro h
+      simp only [Bool.and_eq_true, decide_eq_true_eq, List.all_eq_true, beq_iff_eq] at h
+      exact hz h
+    simp only [hc, Bool.false_eq_true, if_false]
+    rw [show ([0x75, 0x73, 0x74, 0x61, 0x72] : Bytes) = ustarMagic from rfl, ustarAt_iff]
+    constructor
+    · exact Or.inl
+    · rintro (h | h)
+      · exact h
+      · exact absurd h.1 hz
+
+/-- the magic numbers of compress.c's table are pairwise incomparable: no input starts with two of them, so the order of the
+table (and `find?`'s "first match") does not influence the decision; all ids are positive -/
+theorem magic_unambiguous (d : Bytes) (i j : Nat) (m m' : Bytes) (hi : (i, m) ∈ magicTable) (hj : (j, m') ∈ magicTable)
+    (hm : IsPre m d) (hm' : IsPre m' d) : i = j ∧ m = m' ∧ 0 < i := by
+  obtain ⟨t, rfl⟩ := hm
+  obtain ⟨t', h⟩ := hm'
+  simp only [magicTable, List.mem_cons, Prod.mk.injEq, List.mem_nil_iff, or_false] at hi hj
+  rcases hi with ⟨rfl, rfl⟩ | ⟨rfl, rfl⟩ | ⟨rfl, rfl⟩ | ⟨rfl, rfl⟩ <;>
+    rcases hj with ⟨rfl, rfl⟩ | ⟨rfl, rfl⟩ | ⟨rfl, rfl⟩ | ⟨rfl, rfl⟩ <;>
+    simp [Sqfs.Consts.xfrmCompGzip, Sqfs.Consts.xfrmCompXz, Sqfs.Consts.xfrmCompZstd, Sqfs.Consts.xfrmCompBzip2] at h ⊢
+
+/--
 **probe_spec** (`tar_open_stream`).  An input in which `ustar` stands at offset 257 (of the first record, or of the second
-when the first is all zero) is read as it is, whatever its first bytes are; an input is handed to a decompressor only if
-it starts with that codec's magic number from the table of compress.c.
+when the first is all zero — `TarLike`, a predicate on the bytes, tied to the model of `tar_probe` by `tarProbe_iff`) is read
+as it is, whatever its first bytes are; and an input is handed to the decompressor `id` **exactly** when it is not tar-like
+and starts with that codec's magic number from the table of compress.c (which determines `id`: `magic_unambiguous`).
 -/
 theorem probe_spec (data : Bytes) :
-    (tarProbe data = true → openStreamCodec data = none) ∧
-    (∀ id, openStreamCodec data = some id →
-      tarProbe data = false ∧ ∃ m, (id, m) ∈ magicTable ∧ IsPre m data) := by
+    (TarLike data → openStreamCodec data = none) ∧
+    (∀ id, openStreamCodec data = some id ↔ ¬ TarLike data ∧ ∃ m, (id, m) ∈ magicTable ∧ IsPre m data) := by
   constructor
-  · intro h; simp [openStreamCodec, h]
-  · intro id h
-    unfold openStreamCodec at h
-    cases hp : tarProbe data with
-    | true => simp [hp] at h
-    | false =>
-      refine ⟨rfl, ?_⟩
-      simp only [hp, Bool.false_eq_true, if_false] at h
-      unfold compressorIdFromMagic at h
-      cases hf : magicTable.find? (fun e => decide (e.2.length ≤ data.length) && (data.take e.2.length == e.2)) with
-      | none => simp [hf] at h
-      | some e =>
-        simp only [hf] at h
-        split at h
-        · have hid : e.1 = id := by
-            have := Option.some.inj h
-            omega
-          have hmem := List.mem_of_find?_eq_some hf
-          have hpred := List.find?_some hf
-          simp only [Bool.and_eq_true, decide_eq_true_eq, beq_iff_eq] at hpred
-          refine ⟨e.2, by rw [← hid]; exact hmem, ⟨data.drop e.2.length, ?_⟩⟩
-          conv => lhs; rw [← List.take_append_drop e.2.length data, hpred.2]
-        · cases h
+  · intro h; simp [openStreamCodec, (tarProbe_iff data).2 h]
+  · intro id
+    constructor
+    · intro h
+      unfold openStreamCodec at h
+      cases hp : tarProbe data with
+      | true => simp [hp] at h
+      | false =>
+        refine ⟨fun ht => (by rw [(tarProbe_iff data).2 ht] at hp; cases hp), ?_⟩
+        simp only [hp, Bool.false_eq_true, if_false] at h
+        unfold compressorIdFromMagic at h
+        cases hf : magicTable.find? (fun e => decide (e.2.length ≤ data.length) && (data.take e.2.length == e.2)) with
+        | none => simp [hf] at h
+        | some e =>
+          simp only [hf] at h
+          split at h
+          · have hid : e.1 = id := by
+              have := Option.some.inj h
+              omega
+            have hmem := List.mem_of_find?_eq_some hf
+            have hpred := List.find?_some hf
+            simp only [Bool.and_eq_true, decide_eq_true_eq, beq_iff_eq] at hpred
+            refine ⟨e.2, by rw [← hid]; exact hmem, ⟨data.drop e.2.length, ?_⟩⟩
+            conv => lhs; rw [← List.take_append_drop e.2.length data, hpred.2]
+          · cases h
+    · rintro ⟨hnt, m, hm, hpre⟩
+      have hp : tarProbe data = false := by
+        cases hp : tarProbe data with
+        | false => rfl
+        | true => exact absurd ((tarProbe_iff data).1 hp) hnt
+      exact openStreamCodec_of_magic data hp id m hm hpre
+
+set_option maxRecDepth 100000 in
+/-- a tar archive whose first bytes happen to be the gzip magic is read as it is (`ustar` at 257 wins) -/
+example : openStreamCodec ([0x1F, 0x8B, 0x08] ++ List.replicate 254 65 ++ ustarMagic ++ List.replicate 250 0) = none :=
+  (probe_spec _).1 (Or.inl (by unfold UstarAt; decide))
+set_option maxRecDepth 100000 in
+/-- … so is an archive that starts with an all-zero record followed by a header record -/
+example : openStreamCodec (List.replicate 512 0 ++ List.replicate 257 65 ++ ustarMagic ++ List.replicate 250 0) = none :=
+  (probe_spec _).1 (Or.inr ⟨⟨by decide, by decide⟩, by unfold UstarAt; decide⟩)
+set_option maxRecDepth 100000 in
+/-- a gzip stream (no `ustar` at 257 or 769) goes to the gzip decompressor, a zstd frame to the zstd one -/
+example : openStreamCodec ([0x1F, 0x8B, 0x08, 0] ++ List.replicate 600 7) = some Sqfs.Consts.xfrmCompGzip :=
+  ((probe_spec _).2 _).2 ⟨fun h => absurd ((tarProbe_iff _).2 h) (by decide), [0x1F, 0x8B, 0x08], by simp [magicTable],
+    ⟨0 :: List.replicate 600 7, rfl⟩⟩
+example : openStreamCodec ([0x28, 0xB5, 0x2F, 0xFD, 1, 2, 3]) = some Sqfs.Consts.xfrmCompZstd :=
+  ((probe_spec _).2 _).2 ⟨fun h => absurd ((tarProbe_iff _).2 h) (by decide), [0x28, 0xB5, 0x2F, 0xFD], by simp [magicTable],
+    ⟨[1, 2, 3], rfl⟩⟩
+/-- … and the other direction applied to a computed answer -/
+example := ((probe_spec ([0x42, 0x5A, 0x68, 0x39] ++ List.replicate 20 1)).2 Sqfs.Consts.xfrmCompBzip2).1 (by decide)
+example := tarProbe_iff (List.replicate 257 65 ++ ustarMagic ++ List.replicate 250 0)
+example := magic_unambiguous [0x1F, 0x8B, 0x08, 0] Sqfs.Consts.xfrmCompGzip Sqfs.Consts.xfrmCompGzip [0x1F, 0x8B, 0x08] [0x1F, 0x8B, 0x08]
+  (by simp [magicTable]) (by simp [magicTable]) ⟨[0], rfl⟩ ⟨[0], rfl⟩
 
 /-- Non-vacuity of the library-level convention: the toy library meets it under each backend's return-code convention. -/
 theorem toy_library_meets_convention (P : Toy.Params) (b : Backend) :
@@ -457,6 +661,8 @@ theorem toy_decoder_meets_contract (P : Toy.Params) : Nonempty (DecContract (Toy
 
 /-- the toy format round-trips (so `Toy.decode` is a meaningful reference decoder) -/
 theorem toy_decode_encode (x : Bytes) : Toy.decode (Toy.encode x) = some x := Toy.decode_encode x
+
+example : Toy.decode (Toy.encode exA) = some exA := toy_decode_encode exA
 
 /-- a concrete run: 5 bytes through a 4-byte buffer with the most restrictive toy codec -/
 example : (match oRun (Toy.encoder ⟨0, 0, 0⟩) 4 1000 (oInit (Toy.encoder ⟨0, 0, 0⟩))
